@@ -113,9 +113,15 @@ RAW += [("addr-nil-noresult", "func nothing() { }\np = &nothing()\n*p = 1\n[noth
         ("addr-nil-ternary", "p = &(true ? nil : 0)\n*p = 3\nq = {}\n[nil, q.k]"), ("addr-nil-paren-call", "f = func() { return }\np = &(f())\n*p = 4\n[f(), nil]")]
 
 
+# globals the host defines through a deep copy of a nested scope (hostg, hostg2, type HostT) stay in the copy's chain
+HOSTGLOBAL = [("", "x = 1", "return [hostg ?? \"none\", hostg2 ?? \"none\"]"), ("x = 1", "x = hostg", "r = 0; try { r = make(HostT) } catch e { r = \"undefined\" }; return [x, r, hostg ?? \"none\"]"),
+              ("func f() { return hostg ?? \"none\" }", "hostg = 5", "return f()")]
+
+
 def cases():
     return ([{"id": "raw-" + n, "src": s, "concfirst": True} for n, s in FRESH] + [{"id": "raw-" + n, "src": s} for n, s in GOARGS] +
             [{"id": "raw-" + n, "src": s} for n, s in RAW] +
             [{"id": "raw-" + n, "src": s, "variants": ["int64", "float64", "string"]} for n, s in VARIANT] +
-            [{"id": "raw-envpair-%s-%s" % (n, how), "src": b, "pair": {"s0": s0, "a": a, "how": how}} for n, s0, a, b in ENVPAIRS for how in ("Copy", "DeepCopy")] +
+            [{"id": "raw-envpair-%s-%s" % (n, how), "src": b, "pair": {"s0": s0, "a": a, "how": how}} for n, s0, a, b in ENVPAIRS for how in ("Copy", "DeepCopy", "NestedDeepCopy")] +
+            [{"id": "raw-envpair-hostglobal-%d" % k, "src": b, "pair": {"s0": s0, "a": a, "how": "NestedDeepCopy"}} for k, (s0, a, b) in enumerate(HOSTGLOBAL)] +
             [{"id": "raw-envfresh-%s" % n, "src": b, "pair": {"s0": s0, "a": a, "how": "Fresh", "core": True}} for n, s0, a, b in FRESHPAIRS])
